@@ -31,7 +31,7 @@ def corpus(tier, seed):
     items = []
     nls = netlist.g2_shapes() + (netlist.g3_random(seed, 30) if tier == 'quick' else netlist.g3_random(seed, 500) + netlist.g3_random(seed + 1000, 200, max_in=8, max_gates=30, max_dff=5, max_latch=2))
     for j, nl in enumerate(nls):
-        style = ('verilog', 'bench', 'lean')[j % 3]
+        style = ('verilog', 'bench', 'lean', 'vbf')[j % 4]
         for reuse in (False, True):
             for strip in (False, True):
                 items.append((('nl', nl.to_json(), style), reuse, strip))
